@@ -27,6 +27,7 @@ ASSUMPTIONS = [
     "Recoverable = id present in the persistent cache, or the file parses to a mapping whose hash names a free directory.",
     "Two swapped directories without a cache are not recoverable by this definition (correct names are occupied).",
 ]
+MANIFEST = {"technique": 'runtime monitoring: fault enumeration over state point bytes; independent damage classifier as oracle for check()/open/repair', "engine": 'reference-model monitor'}
 TIME_CAP = {"quick": 70, "thorough": 1500}
 
 CLASSES = [b"7", b"q", b'"', b"{", b"}", b"[", b",", b":", b" ", b"-", b"e", b"\x00", b"\x80"]
